@@ -624,10 +624,14 @@ def gen_ensbox(rng):
     # the unconstrained minimum lies outside the box (or, sometimes, inside)
     a = [(h + rng.choice([0.5, 1.5]) if sd > 0 else l - rng.choice([0.5, 1.5])) if rng.random() < 0.8 else (l + h) / 2 for l, h, sd in zip(lo, hi, side)]
     how = rng.choice(["class", "class", "instance", "instance", "instance-own-objective"])
-    return dict(kind="ensbox", ens=rng.choice(["lattice", "buckshot"]), nested=rng.choice(["NM", "POW", "DE", "DE2"]), ndim=ndim,
+    case = dict(kind="ensbox", ens=rng.choice(["lattice", "buckshot"]), nested=rng.choice(["NM", "POW", "DE", "DE2"]), ndim=ndim,
                 nbins=[rng.choice([1, 2]) for _ in range(ndim)], npts=rng.choice([2, 3]), seed=rng.randrange(10 ** 6), a=a, lo=lo, hi=hi,
                 how=how, mode="solve" if how == "instance" or rng.random() < 0.6 else "step", inner=rng.choice([3, 6, 10]),
                 first=rng.choice(["ranges", "nested"]))
+    if case["how"] == "class" and case["mode"] == "step" and rng.random() < 0.5:
+        # the ranges are narrowed between two iterations of the ensemble
+        case["mid"] = dict(after=rng.choice([1, 2, 3]), lo=list(lo), hi=[l + (h - l) / 2 for l, h in zip(lo, hi)])
+    return case
 
 
 def run_ensbox(case):
@@ -659,14 +663,16 @@ def run_ensbox(case):
                     f()
                 s.SetEvaluationLimits(generations=case["inner"])
                 s.SetTermination(T.VTR(-1.0))
-                nstep = 0
+                nstep, n_mid = 0, None
                 if case["mode"] == "solve":
                     s.Solve(cost); nstep = 2
                 else:
                     s.SetObjective(cost)
                     while nstep < 40 and not s.Step():
                         nstep += 1
-                return dict(nstep=nstep, bestX=L._vec(s.bestSolution), bestE=float(s.bestEnergy), calls=[x for x, y, _ in rec.cost_calls],
+                        if case.get("mid") and nstep == case["mid"]["after"]:
+                            s.SetStrictRanges(list(case["mid"]["lo"]), list(case["mid"]["hi"])); n_mid = len(rec.cost_calls)
+                return dict(nstep=nstep, n_mid=n_mid, bestX=L._vec(s.bestSolution), bestE=float(s.bestEnergy), calls=[x for x, y, _ in rec.cost_calls],
                             members=[dict(bestX=L._vec(m.bestSolution), bestE=float(m.bestEnergy)) for m in s._allSolvers if m is not None])
             finally:
                 L.REG.pop(tag, None)
@@ -681,6 +687,13 @@ def oracle_ensbox(case, out):
     bad = [x for x in out["calls"] if not inside(x)]
     if bad:
         f.append(fail("cost_never_called_outside", site, "ensemble-member-evaluated-outside-ranges", dict(n=len(bad), of=len(out["calls"]), first=bad[0])))
+    if out.get("n_mid") is not None:      # calls made after the ranges were narrowed
+        m = case["mid"]
+        late = [x for x in out["calls"][out["n_mid"]:] if not all(l <= v <= h for v, l, h in zip(x, m["lo"], m["hi"]))]
+        if late:
+            f.append(fail("cost_never_called_outside", "ensemble:" + case["ens"], "ensemble-member-evaluated-outside-ranges:ranges-changed-after-members-exist",
+                          dict(n=len(late), of=len(out["calls"]) - out["n_mid"], first=late[0], box=[m["lo"], m["hi"]])))
+        return f      # (the best solution may legitimately predate the change)
     if isfinite(out["bestE"]) and not inside(out["bestX"]):
         f.append(fail("finite_best_inside", site, "ensemble-best-outside-ranges", dict(bestX=out["bestX"], bestE=out["bestE"])))
     for i, m in enumerate(out["members"]):
